@@ -504,18 +504,19 @@ def holds_rel(facts, lhs, op, rhs):
     return False
 
 
-def effect_sites(prog, S, f, pred, depth=0):
-    """nodes of f that stand for an effect: direct calls satisfying pred, plus calls to static helpers on
-    every path of which such a call happens (so the helper call is the effect as far as f's CFG goes)"""
+def effect_sites(prog, S, f, pred, depth=0, any_linkage=False):
+    """nodes of f that stand for an effect: direct calls satisfying pred, plus calls to static helpers (any library
+    function with any_linkage) on every path of which such a call happens (so the helper call is the effect as far as
+    f's CFG goes)"""
     out = []
     for c in f.calls():
         if pred(c):
             out.append((c, c, f))
             continue
         g = prog.fn(c.get("callee") or "")
-        if g is None or not g.static or depth > 2 or g.name == f.name:
+        if g is None or not (g.static or any_linkage) or depth > 2 or g.name == f.name:
             continue
-        inner = effect_sites(prog, S, g, pred, depth + 1)
+        inner = effect_sites(prog, S, g, pred, depth + 1, any_linkage)
         if not inner:
             continue
         pg = S.pg(g)
